@@ -367,7 +367,6 @@ class Sim:
 
     def source(self, q):
         """the source reference of a statement, evaluated before the target path: its location (None = static none)"""
-        self.cget(q)                 # raises nopath for an array index out of range
         return self.cloc(q)
 
     def through(self, sl):
@@ -378,12 +377,12 @@ class Sim:
         v = self.slots[p[0]]
         for s in p[1]:
             if s[0] == "i":
-                if isinstance(v, Arr):
-                    if s[1] >= len(v.items):
-                        raise Skip("nopath")
+                if isinstance(v, Arr) and s[1] < len(v.items):
                     v = v.items[s[1]]
                 else:
-                    v = None
+                    if isinstance(v, Arr):
+                        self.count("const index beyond the length")
+                    v = None                 # the static none (8dbc483 for an index beyond the length)
             else:
                 v = v.items.get(s[1]) if isinstance(v, Obj) else None
         return v
@@ -1023,8 +1022,15 @@ class Gen:
             root, steps, v = self.rand_path(deep=rng.choice([0.3, 0.6, 0.9]))
             if not want_cont or is_cont(v):
                 break
-        if rng.random() < 0.04:
+        r = rng.random()
+        if r < 0.04:
             steps = list(steps) + [("i", rng.randrange(0, 5)) if rng.random() < 0.5 else ("k", rng.choice(KEYS))]
+        elif r < 0.07 and isinstance(v, Arr):
+            # the const operator[](int) with an index beyond the length: the static none
+            L = len(v.items)
+            steps = list(steps) + [("i", rng.choice([L, L, L + 1, v.cap, v.cap + 1, 2 * v.cap + 5, 100000, 2147483647]))]
+            if rng.random() < 0.3:
+                steps.append(("i", 0) if rng.random() < 0.5 else ("k", rng.choice(KEYS)))
         return path_str(root, steps)
 
     def own_part(self):
@@ -1502,6 +1508,17 @@ def boundary_cases(rng, tier):
                         c += ["set %s t NONE" % src.split("/")[0]] + ["set %s/k%s i %d" % (base, hexs(nm), j) for j, nm in enumerate(names)]
                 c += ["dumpall", "drop 2", "dumpall"]
                 cases.append(c)
+    # const index beyond the length (c[3] on [1,2,3]): every reader and every operation taking a source
+    for L in [0, 1, 3, 4, 6, 7]:
+        c = ["reset", "set 0 t ARRAY"] + ["appl 0 i %d" % (10 + i) for i in range(L)] + ["set 1/k61 t ARRAY"] + ["appl 1/k61 s %s" % hexs(b"element %d of the inner array" % i) for i in range(L)]
+        for i in sorted(set([L, L + 1, 3, 6, 12, 13, 100000, 2147483647])):
+            if i < L:
+                continue
+            for q in ["0/i%d" % i, "1/k61/i%d" % i, "0/i%d/i0" % i, "1/k61/i%d/k61" % i]:
+                c += ["dump %s" % q, "type %s" % q, "len %s" % q, "conv %s" % q, "tostr %s" % q, "is %s NONE" % q, "eq %s 7" % q, "eq %s 0/i0" % q,
+                      "setv 2 %s" % q, "app 3 %s" % q, "ext 4 %s" % q, "clone 5 %s" % q, "copy 6 %s" % q, "ctor 7 varr %s 0" % q, "setv 0/i%d %s" % (L, q) if L < 3 else "dump 0"]
+            c += ["dumpall", "set 0 t ARRAY"] + ["appl 0 i %d" % (10 + j) for j in range(L)]
+        cases.append(c)
     # removeAt(i, n) with counts up to INT_MAX
     for L in [1, 2, 3, 4, 7, 13]:
         c = ["reset"] + ["appl 0 i %d" % i for i in range(L)] + ["copy 1 0", "set 2/k61 t ARRAY"] + ["appl 2/k61 s %s" % hexs(b"element number %d" % i) for i in range(L)]
@@ -1625,14 +1642,22 @@ def extra(ctx):
         case = ["reset", "appl 0 i 1", "nest 0 %d" % half, "copy 1 0", "nest 0 %d" % (depth - half), "len 0", "ctor 2 kv 6b 0", "nest 2 5",
                 "drop 0", "len 1", "rc 1", "drop 2", "rc 1", "nest 1 %d" % depth, "set 1 i 5", "set 3 t OBJ", "nest 3 %d" % depth, "drop 3", "dumpall"]
         want = ["ok", "ok", "ok", "ok", "ok", "1", "ok", "ok", "ok", "1", "2", "ok", "1", "ok", "ok", "ok", "ok", "ok", "N I5 N N N N N N"]
-        out, crash, err = core.run_impl(ctx["exe"], ["case 0"] + case, timeout=300)
-        if crash is not None:
-            fails.append(engine.Failure("crash", case, out, [], crash=crash, stderr=err[-4000:],
-                                        clause="memory error / abnormal termination while destroying a deeply nested Var: %s" % crash,
-                                        name="deep-tree destruction (harness/c04.cpp, ops nest/drop)"))
-        elif out[1:] != want:
-            fails.append(engine.Failure("diverge", case, out, ["case"] + want, clause="deeply nested Var: outputs differ from the expected ones",
-                                        name="deep-tree destruction (harness/c04.cpp, ops nest/drop)"))
+        checks = [(case, want)]
+        # nested containers referenced twice (or at two levels) inside the dying tree (652bc0f), arrays and objects, with an outside handle
+        for opn, ln in (("nest2", "2"), ("nesto", "3"), ("nestx", "3")):
+            case = ["reset", "appl 0 i 1", "%s 0 %d" % (opn, half), "copy 1 0", "%s 0 %d" % (opn, depth - half), "len 0", "drop 0", "len 1",
+                    "%s 1 %d" % (opn, depth), "set 1 s 78", "appl 4 i 1", "%s 4 %d" % (opn, depth), "ctor 5 kv 6b 4", "drop 4", "len 5", "set 5 t NONE", "dumpall"]
+            want = ["ok", "ok", "ok", "ok", "ok", ln, "ok", ln, "ok", "ok", "ok", "ok", "ok", "ok", "1", "ok", "N S78 N N N N N N"]
+            checks.append((case, want))
+        for case, want in checks:
+            out, crash, err = core.run_impl(ctx["exe"], ["case 0"] + case, timeout=300)
+            if crash is not None:
+                fails.append(engine.Failure("crash", case, out, [], crash=crash, stderr=err[-4000:],
+                                            clause="memory error / abnormal termination while destroying a deeply nested Var: %s" % crash,
+                                            name="deep-tree destruction (harness/c04.cpp, ops nest*/drop)"))
+            elif out[1:] != want:
+                fails.append(engine.Failure("diverge", case, out, ["case"] + want, clause="deeply nested Var: outputs differ from the expected ones",
+                                            name="deep-tree destruction (harness/c04.cpp, ops nest*/drop)"))
     ctx["stats"]["deep_tree_destruction_depths"] = [100000, 1000000]
     return fails
 
@@ -1672,7 +1697,8 @@ LEVEL_TEXT = (
     "(3) history_safe (full): for EVERY history of guarded statements from the initial state the invariant holds in every reached state "
     "(each handle points to a live block of its kind, rc = number of handles > 0, objects sorted, handle graph acyclic); "
     "history_never_touches_freed / history_in_domain: every statement is executed, or refused as Excluded (shared-growth, "
-    "autocreate-invalidates-source, self-containment) or as OutOfDomain (nopath: const path through a missing element; badarg: "
+    "autocreate-invalidates-source, self-containment) or as OutOfDomain (nopath is no longer produced: a const index beyond the length "
+    "gives none since 8dbc483, const_index_beyond_length_is_none, and is executed; badarg: "
     "operand of the wrong kind / out-of-range index or root; fuel) — the LIBRARY HAS NO CHECK for either class: they are domain "
     "hypotheses of the theorem (InDomain ops), the generator stays inside them and the harness refuses them by prediction; within the "
     "domain no statement reads or releases a released block, indexes outside an element array or finds a zero count; no_leak: when no "
@@ -1740,6 +1766,10 @@ LEVEL_NOTE = (
     "model's release was a work list already, so K could not see that difference below the generated depth (<= 64); the deep trees are "
     "now exercised outside the line protocol by extra(): depth 100000 and 1000000, arrays and objects, with a second handle half way "
     "down, destroyed through drop / typed assignment under ASan/LSan, outputs compared with fixed expectations (no model, no theorem). "
+    "A fourth round: 652bc0f (my iterative release was incomplete: a nested container referenced twice inside the dying tree still recursed "
+    "once per level; extra() now also destroys w << v << v, {a:v,b:5,c:v} and two-level sharing at depth 100000 / 1000000) and 8dbc483 "
+    "(const operator[](int) beyond the length read out of bounds; the harness had refused such paths as nopath, they are generated and "
+    "executed now). "
     "(d) known: property=C04 key=deep-recursion — clone(), == and toString() still recurse once per nesting level; hypothesis of every "
     "statement about them: the nesting depth fits the call stack (generated depth <= 64; probe at depth 100000 crashes with "
     "asan:stack-overflow); the theorems say nothing about the call stack. "
